@@ -72,7 +72,7 @@ class Features:
     user_funcs: Tuple = ()  # (name, arity) of injected C++ functions returning double
     missing_bank: bool = False
     guards: bool = False  # C04: put partial operations under guards
-    bool_arith: bool = False
+    bool_arith: bool = True  # a comparison / bool method as an operand of + - *
     explicit_ttree: bool = True
     echo: bool = True
     follow_links: int = 0  # follow object-valued methods up to this many steps (C10)
@@ -467,6 +467,11 @@ class QGen:
                 return (f"({left} % {self.pick(['2', '3', '5'])})", "int")
             b, kb = self.num(scope, fuel - 1)
             self.labels.add("arith")
+            if getattr(f, "bool_arith", True) and self.chance(1, 8):
+                # a truth value as an operand: it counts as the integer 0 / 1
+                c = self.boolean(scope, fuel - 1)
+                self.labels.add("bool-operand")
+                return (f"({c} {op} {b})", wider("int", kb)) if self.chance(1, 2) else (f"({a} {op} {c})", wider(ka, "int"))
             return (f"({a} {op} {b})", wider(ka, kb))
         if k == "agg":
             return self.aggregate(scope, fuel)
